@@ -45,6 +45,7 @@ namespace bxdecay0 {
 
   void Ca48(i_random & prng_, event & event_, double tcnuc_, double & tdnuc_)
   {
+    BXDECAY0_VERIF_SCOPE("scheme:Ca48", tcnuc_);
     double t;
     double tdlev;
     double tclev;
